@@ -238,6 +238,8 @@ pub struct Repair<N: Network> {
     blockstore: SharedBlockstore,
     pool: SharedPool,
     slice_roots: BTreeMap<(BlockId, SliceIndex), SliceRoot>,
+    /// Index of the last slice of each block under repair, as proven by a `LastSliceRoot` response.
+    last_slices: BTreeMap<BlockId, SliceIndex>,
     outstanding_requests: BTreeMap<Hash, RepairRequestType>,
     /// Expiry times of outstanding requests, earliest first (min-heap via [`Reverse`]).
     request_timeouts: BinaryHeap<Reverse<(Instant, Hash)>>,
@@ -266,6 +268,7 @@ where
             blockstore,
             pool,
             slice_roots: BTreeMap::new(),
+            last_slices: BTreeMap::new(),
             outstanding_requests: BTreeMap::new(),
             request_timeouts: BinaryHeap::new(),
             network,
@@ -375,6 +378,7 @@ where
                 self.outstanding_requests.remove(&request_hash);
                 self.slice_roots
                     .insert((block_id.clone(), last_slice), root);
+                self.last_slices.insert(block_id.clone(), last_slice);
 
                 // issue next requests
                 // TODO: do not request last slice root again
@@ -423,6 +427,13 @@ where
                     || shred.payload().shred_index != index
                 {
                     warn!("repair response (Shred) for mismatching shred index");
+                    return;
+                }
+                // the last-slice flag has to agree with the proven number of slices,
+                // otherwise a slice the leader signed twice could poison the repaired data
+                let is_last_slice = self.last_slices.get(block_id) == Some(&slice);
+                if shred.payload().header.is_last != is_last_slice {
+                    warn!("repair response (Shred) with mismatching last-slice flag");
                     return;
                 }
                 let Some(root) = self.slice_roots.get(&(block_id.clone(), slice)) else {
